@@ -11,13 +11,13 @@ Open Scope list_scope.
 (* does Collection._insert accept d in state c *)
 Definition accepts (c : coll) (d : value) : bool := is_ok (snd (insert_doc c d)).
 
-(* the entry an accepted document is stored as: under its _id (a fresh ObjectId when it has
-   none, added as last field), dates truncated to milliseconds *)
+(* the entry an accepted document is stored as: under its (normalised) _id (a fresh ObjectId
+   when it has none, added as last field), dates truncated to milliseconds *)
 Definition stored_entry (c : coll) (d : value) : value * value :=
   match d with
   | VDoc fs =>
       match assoc "_id" fs with
-      | Some i => (i, patch (VDoc fs))
+      | Some i => (patch i, patch (VDoc fs))
       | None => (VOid (next_oid c), patch (VDoc (fs ++ [("_id", VOid (next_oid c))])))
       end
   | _ => (VNull, VNull)
@@ -68,9 +68,9 @@ Proof.
   unfold insert_doc, stored_entry. intros Hn H.
   destruct d as [ | | | | | | | fs | ]; try discriminate.
   destruct (assoc "_id" fs) as [i|]; cbv iota beta in H.
-  - destruct (negb (id_modelled i)); [ destruct i; discriminate | ].
+  - destruct (negb (id_modelled (patch i))); [ destruct (patch i); discriminate | ].
     rewrite (expire_id c Hn) in H.
-    destruct (store_get i (docs c)); [ discriminate | ].
+    destruct (store_get (patch i) (docs c)); [ discriminate | ].
     match type of H with context [ensure_uniques ?c2 ?data] =>
       destruct (ensure_uniques c2 data) as [touched|e]; 
       [ rewrite (expire_if_id touched c2 Hn) in H | rewrite (expire_id c2 Hn) in H; discriminate ]
